@@ -67,6 +67,8 @@ def parse_snapshot(tokens):
             log.append(("notify", l)); i = j
         elif k == "begin":
             log.append(("begin", vals[i + 1], vals[i + 2])); i += 3
+        elif k == "emit":
+            log.append(("emit", vals[i + 1], vals[i + 2])); i += 3
         elif k == "done":
             log.append(("done", None if vals[i + 1] == "none" else vals[i + 1])); i += 2
         else:
@@ -152,7 +154,7 @@ def directed_pair_family(rng, max_nodes, engines=("sync", "async"), sample=None,
 
 def case_payload(am, engine, cx, events, opts=None):
     import base64, pickle
-    return dict(config=_jsonable(am.to_config(**{k: v for k, v in (opts or {}).items() if k != 'probe_can'})), engine=engine, ctx=cx, events=[list(e) for e in events],
+    return dict(config=_jsonable(am.to_config(**{k: v for k, v in (opts or {}).items() if k not in ('probe_can', 'hook_faults')})), engine=engine, ctx=cx, events=[list(e) for e in events],
                 opts=opts, am_b64=base64.b64encode(pickle.dumps(am)).decode())
 
 
@@ -182,7 +184,7 @@ def run_macro_property(rep, ctx, name, cases, monitor, rule, extra_search=None, 
             if fired:
                 nontrivial.add(core.case_hash([am.to_coq(), engine, cx, events]))
             if len(samples) < 3 and fired:
-                samples.append(dict(config=_jsonable(am.to_config(**{k: v for k, v in (opts or {}).items() if k != 'probe_can'})), engine=engine, ctx=cx,
+                samples.append(dict(config=_jsonable(am.to_config(**{k: v for k, v in (opts or {}).items() if k not in ('probe_can', 'hook_faults')})), engine=engine, ctx=cx,
                                     events=[list(e) for e in events],
                                     final=" ".join(str(t[1]) for t in snaps[-1])[:600]))
             try:
@@ -234,7 +236,8 @@ def replay_macro(payload, monitor=None):
     fn = impl.run_sync if case["engine"] == "sync" else impl.run_async
     o = dict(case.get("opts") or {})
     probe = bool(o.pop("probe_can", False))
-    snaps = fn(am, events, cfg_opts=o, seed_ctx=kmacro.ctx_seed(cx), probe_can=probe)
+    hf = bool(o.pop("hook_faults", False))
+    snaps = fn(am, events, cfg_opts=o, seed_ctx=kmacro.ctx_seed(cx), probe_can=probe, hook_faults=hf)
     print("engine:", case["engine"], "ctx:", cx, "events:", events)
     for i, s_ in enumerate(snaps):
         print("IMPL  [%d] %s" % (i, " ".join(str(t[1]) for t in s_)))
